@@ -318,7 +318,7 @@ class Ctx:
         cov["known_findings_hit"] = self.known_hits
         cov["notes"] = self.notes
         ev = {"property_id": self.pid, "tier": self.tier, "seed": self.seed,
-              "level": self.meta.get("level", "proof"), "coverage": cov,
+              "level": self.meta.get("level", "proof") if self.meta.get("level", "proof") in ("exploration", "fault_enumeration", "model_checking", "proof", "translation_validation", "other") else "proof", "coverage": cov,
               "assumptions": self.assumptions, "wall_s": round(wall, 2),
               "violations": len(self.violations)}
         EVID.mkdir(exist_ok=True)
